@@ -1550,7 +1550,7 @@ Qed.
 (** * Witnesses *)
 Definition mkjob (uid q prio ct : Z) : job :=
   {| j_uid := uid; j_queue := q; j_prio := prio; j_subgroups := [(0, 1)]; j_ctime := ct; j_shape := 0;
-     j_pre := PPreemptible; j_req := [] |}.
+     j_pre := PPreemptible; j_req := []; j_last_start := None |}.
 
 Definition w_qs : list qinfo := [ {| qi_id := 1; qi_parent := None; qi_leaf := true |} ].
 Definition w_top : job := mkjob 1 1 3 0.
@@ -1605,7 +1605,7 @@ Definition ex_c : job := mkjob 3 3 9 1.
     pushed back once, with one pod allocated (as allocate does for an elastic job) *)
 Definition progressed (j : job) : job :=
   {| j_uid := j_uid j; j_queue := j_queue j; j_prio := j_prio j; j_subgroups := [(1, 1)];
-     j_ctime := j_ctime j; j_shape := j_shape j; j_pre := j_pre j; j_req := j_req j |}.
+     j_ctime := j_ctime j; j_shape := j_shape j; j_pre := j_pre j; j_req := j_req j; j_last_start := j_last_start j |}.
 Definition ex_attempt (j : job) (c : Z) : option (Z * option job) :=
   if 1 <=? c then
     Some (c - 1, match j_subgroups j with (0, _) :: _ => Some (progressed j) | _ => None end)
